@@ -1,2 +1,283 @@
-(* C15 — ttlcache. Statements only; every proof is [exact <lemma of C15/Proofs*.v>]. *)
-From Kit Require Import C15.Model C15.Spec C15.Check.
+(* C15 — ttlcache: Get never returns an expired, deleted or superseded value; Cleanup removes only
+   expired entries; Stop waits for the cleaner.
+   Statements only; every proof is [exact <lemma of C15/Proofs*.v>].
+
+   Vocabulary (C15/Ops.v, Model.v, Spec.v).  Keys, values are integers; time is [Z] nanoseconds on
+   the cache's clock; TTLs are seconds.  A history is a chronological list of client operations
+   [OSet k v ttl | OGet k | ODelete k | OCleanup | OReset | OAdvance d | OKeys].
+   [final maxttl t0 ops] = the model's state after running [ops] on a fresh cache (MaxTTL option
+   [maxttl], clock starting at [t0]); [get s k] = what Get(k) returns in state [s].
+   Spec side, read off the history only: [leaves k o] = operation [o] is not an accepted Set of k,
+   a Delete of k or a Reset; [elapsed h] = sum of the clock advances in [h]; [eff_ttl maxttl ttl] =
+   the TTL capped by MaxTTL when MaxTTL > 0.
+   Interleaved system: a schedule [es] is ANY list of events [CSet | CGet | CDelete | CReset |
+   CAdvance | CCollect | CDeleteKeys i] — client map operations interleaved with any number of
+   cleanups, each split where the code can be interleaved: the ForEach that collects expired keys
+   ([CCollect]) and the later bulk Del of the i-th cleanup in flight ([CDeleteKeys i]);
+   [flat_map ev_op es] = the client operations of the schedule, in order; [cget s k] = Get(k). *)
+From Kit Require Import C15.Model C15.Spec C15.Check C15.ProofsMap C15.Proofs C15.ProofsConc
+  C15.ProofsLife C15.ProofsMain.
+Local Open Scope Z_scope.
+
+(* GET IS SOUND (sequential).  For every MaxTTL, initial clock and history of any length: if Get(k)
+   hits with v, then the history contains an accepted Set(k, v, ttl) after which nobody Set or
+   Deleted k or Reset the cache, and strictly less than the (capped) TTL has elapsed on the clock
+   since.  No side condition: any TTLs (even overflowing int64 ns), any advances (even negative). *)
+Theorem C15_get_sound : forall maxttl t0 ops k v,
+  get (final maxttl t0 ops) k = Some v ->
+  exists h1 ttl h2,
+    ops = h1 ++ OSet k v ttl :: h2 /\ 0 < ttl /\ Forall (leaves k) h2 /\
+    elapsed h2 < eff_ttl maxttl ttl * second_ns.
+Proof. exact main_get_sound. Qed.
+Print Assumptions C15_get_sound.
+
+(* GET IS SOUND (interleaved).  The same for EVERY schedule of client operations interleaved with
+   any number of two-phase cleanups (periodic or manual): a hit is always justified by the client
+   operations issued so far. *)
+Theorem C15_get_sound_interleaved : forall maxttl t0 es s k v,
+  crun maxttl (cinit t0) es = Some s -> cget s k = Some v ->
+  exists h1 ttl h2,
+    flat_map ev_op es = h1 ++ OSet k v ttl :: h2 /\ 0 < ttl /\ Forall (leaves k) h2 /\
+    elapsed h2 < eff_ttl maxttl ttl * second_ns.
+Proof. exact conc_get_sound. Qed.
+Print Assumptions C15_get_sound_interleaved.
+
+(* GET IS COMPLETE (sequential): "otherwise it reports a miss" read contrapositively.  If the clock
+   never runs backwards and the history contains an accepted Set(k, v, ttl), not superseded /
+   deleted / reset since, with less than the capped TTL elapsed, and that TTL fits int64
+   nanoseconds (< 2^63 ns, ~292 years), then Get(k) hits with v — whatever Cleanups happened. *)
+Theorem C15_get_complete : forall maxttl t0 ops k v h1 ttl h2,
+  forallb op_forward ops = true ->
+  ops = h1 ++ OSet k v ttl :: h2 -> 0 < ttl -> Forall (leaves k) h2 ->
+  elapsed h2 < eff_ttl maxttl ttl * second_ns -> eff_ttl maxttl ttl * second_ns < 2^63 ->
+  get (final maxttl t0 ops) k = Some v.
+Proof. exact main_get_complete. Qed.
+Print Assumptions C15_get_complete.
+
+(* Both directions at once, against the executable reference [expected_get] (most recent accepted
+   Set still in force, hit iff elapsed < capped TTL) that the harness oracle evaluates. *)
+Theorem C15_get_exact : forall maxttl t0 ops k,
+  forallb op_forward ops = true ->
+  last_set_fits maxttl (rev ops) k = true ->
+  get (final maxttl t0 ops) k = expected_get maxttl (rev ops) k.
+Proof. exact seq_get_exact. Qed.
+Print Assumptions C15_get_exact.
+
+(* ... and that executable reference decides the declarative reading used above. *)
+Theorem C15_expected_get_spec : forall maxttl h k v,
+  expected_get maxttl (rev h) k = Some v <->
+  exists h1 ttl h2,
+    h = h1 ++ OSet k v ttl :: h2 /\ 0 < ttl /\ Forall (leaves k) h2 /\
+    elapsed h2 < eff_ttl maxttl ttl * second_ns.
+Proof. exact expected_get_spec. Qed.
+Print Assumptions C15_expected_get_spec.
+
+(* BOUNDARY.  After a successful Set with a TTL that fits, advancing the clock by exactly the
+   capped TTL gives a miss; one nanosecond less gives a hit with the value set. *)
+Theorem C15_boundary : forall maxttl s k v ttl s',
+  set maxttl s k v ttl = Some s' -> eff_ttl maxttl ttl * second_ns < 2^63 ->
+  get (advance s' (eff_ttl maxttl ttl * second_ns)) k = None /\
+  get (advance s' (eff_ttl maxttl ttl * second_ns - 1)) k = Some v.
+Proof. exact main_boundary. Qed.
+Print Assumptions C15_boundary.
+
+(* MAXTTL CAPS.  With MaxTTL configured, a Set with a larger TTL is the same state transition as a
+   Set with TTL = MaxTTL ... *)
+Theorem C15_maxttl_caps : forall maxttl s k v ttl,
+  0 < maxttl -> maxttl < ttl -> set maxttl s k v ttl = set maxttl s k v maxttl.
+Proof. exact maxttl_caps. Qed.
+Print Assumptions C15_maxttl_caps.
+
+(* ... so such an entry misses MaxTTL seconds after the Set and hits 1 ns earlier. *)
+Theorem C15_maxttl_boundary : forall maxttl s k v ttl s',
+  0 < maxttl -> maxttl < ttl -> maxttl * second_ns < 2^63 ->
+  set maxttl s k v ttl = Some s' ->
+  get (advance s' (maxttl * second_ns)) k = None /\
+  get (advance s' (maxttl * second_ns - 1)) k = Some v.
+Proof. exact maxttl_boundary. Qed.
+Print Assumptions C15_maxttl_boundary.
+
+(* CLEANUP IS TRANSPARENT.  In every state, for every key, Get answers the same before and after
+   a Cleanup. *)
+Theorem C15_cleanup_transparent : forall s k, get (cleanup s) k = get s k.
+Proof. exact cleanup_transparent. Qed.
+Print Assumptions C15_cleanup_transparent.
+
+(* CLEANUP REMOVES ONLY EXPIRED ENTRIES.  After Cleanup the stored entry of every key is what it
+   was, except that entries whose expiry is strictly before the clock are gone. *)
+Theorem C15_cleanup_only_expired : forall s k,
+  lookup k (smap (cleanup s)) =
+  match lookup k (smap s) with
+  | Some e => if eexp e <? snow s then None else Some e
+  | None => None
+  end.
+Proof. exact cleanup_only_expired. Qed.
+Print Assumptions C15_cleanup_only_expired.
+
+(* UNTOUCHED LIVE ENTRIES SURVIVE (interleaved).  From ANY state in which k holds entry e and no
+   cleanup in flight has k on its list: along every schedule (clock not running backwards) that
+   does not Set/Delete k or Reset — other keys' operations, Gets, advances, any number of collects
+   and bulk deletes in any order — as long as e is not strictly expired at the end, k still holds
+   exactly e. *)
+Theorem C15_untouched_live_survives : forall maxttl es s s' k e,
+  lookup k (cm s) = Some e -> (forall p, In p (cpend s) -> ~ In k (pkeys p)) ->
+  forallb forward_ev es = true -> forallb (leaves_ev k) es = true ->
+  crun maxttl s es = Some s' -> cnow s' <= eexp e ->
+  lookup k (cm s') = Some e.
+Proof. exact conc_untouched_live_survives. Qed.
+Print Assumptions C15_untouched_live_survives.
+
+(* A bulk delete of a cleanup in flight removes an entry that is not strictly expired ONLY IF its
+   key was Set between that cleanup's collect and now (the race the code comment documents). *)
+Theorem C15_delete_only_expired_or_touched : forall maxttl t0 es s i p k e s',
+  forallb forward_ev es = true -> crun maxttl (cinit t0) es = Some s ->
+  nth_error (cpend s) i = Some p ->
+  lookup k (cm s) = Some e -> cnow s <= eexp e -> ~ In k (ptouched p) ->
+  cstep maxttl s (CDeleteKeys i) = Some s' -> lookup k (cm s') = Some e.
+Proof. exact conc_delete_only_expired_or_touched. Qed.
+Print Assumptions C15_delete_only_expired_or_touched.
+
+(* GET IS COMPLETE (interleaved) up to the documented race: as C15_get_complete, for every
+   schedule, provided k is not in the ghost set [clost] of keys whose live entry a bulk delete
+   removed (a later Set of k takes it out again) ... *)
+Theorem C15_get_complete_interleaved : forall maxttl t0 es s k v h1 ttl h2,
+  forallb forward_ev es = true -> crun maxttl (cinit t0) es = Some s ->
+  ~ In k (clost s) ->
+  flat_map ev_op es = h1 ++ OSet k v ttl :: h2 -> 0 < ttl -> Forall (leaves k) h2 ->
+  elapsed h2 < eff_ttl maxttl ttl * second_ns -> eff_ttl maxttl ttl * second_ns < 2^63 ->
+  cget s k = Some v.
+Proof. exact main_conc_get_complete. Qed.
+Print Assumptions C15_get_complete_interleaved.
+
+(* ... and a key enters [clost] only at a bulk delete whose cleanup had collected it AND during
+   whose collect-to-delete window it was Set: the cleanup/refresh race is the only way a hit can
+   turn into a miss. *)
+Theorem C15_cleanup_race_is_the_only_miss : forall maxttl t0 es s e s' k,
+  forallb forward_ev es = true -> crun maxttl (cinit t0) es = Some s ->
+  cstep maxttl s e = Some s' -> In k (clost s') ->
+  In k (clost s) \/
+  exists i p, e = CDeleteKeys i /\ nth_error (cpend s) i = Some p /\
+              In k (pkeys p) /\ In k (ptouched p).
+Proof. exact conc_lost_only_by_race. Qed.
+Print Assumptions C15_cleanup_race_is_the_only_miss.
+
+(* The race is real in the model (and documented in the code): a cleanup collects k while it is
+   expired, k is refreshed, the bulk delete removes the fresh entry. *)
+Theorem C15_cleanup_race_witness :
+  let es := [CSet 0 1 1; CAdvance 2000000000; CCollect; CSet 0 2 1] in
+  (exists s, crun 0 (cinit 0) es = Some s /\ cget s 0 = Some 2) /\
+  (exists s, crun 0 (cinit 0) (es ++ [CDeleteKeys 0%nat]) = Some s /\ cget s 0 = None /\
+             clost s = [0]).
+Proof. exact conc_race_example. Qed.
+Print Assumptions C15_cleanup_race_witness.
+
+(* The sequential system is the interleaved one with every Cleanup run back to back. *)
+Theorem C15_seq_embeds : forall maxttl ops s c,
+  cm c = smap s -> cnow c = snow s -> cpend c = [] ->
+  exists c', crun maxttl c (flat_map seq_ev ops) = Some c' /\
+             cm c' = smap (fst (run maxttl s ops)) /\ cnow c' = snow (fst (run maxttl s ops)) /\
+             cpend c' = [].
+Proof. exact seq_embeds. Qed.
+Print Assumptions C15_seq_embeds.
+
+(* STOP WAITS.  Life cycle of the background goroutine and any number of concurrent Stop() calls
+   (events: tick, Cleanup done, cleaner sees stopCh and closes runningCh, new Stop call, its CAS,
+   its close(stopCh), its return from <-runningCh).  For every schedule: a Stop call that has
+   returned implies the cleaner goroutine has exited. *)
+Theorem C15_stop_waits : forall es s i,
+  lrun linit es = Some s -> nth_error (lcallers s) i = Some SReturned -> lcleaner s = PExited.
+Proof. exact stop_waits. Qed.
+Print Assumptions C15_stop_waits.
+
+(* ... the cleaner exits only if Stop was called ... *)
+Theorem C15_cleaner_exits_only_on_stop : forall es s,
+  lrun linit es = Some s -> lcleaner s = PExited -> lstopped s = true.
+Proof. exact cleaner_exits_only_on_stop. Qed.
+Print Assumptions C15_cleaner_exits_only_on_stop.
+
+(* ... and Stop never wedges: from every reachable state, every Stop call in progress can be
+   brought to its return by steps of the Stop callers and of the cleaner alone (no tick, no new
+   call). *)
+Theorem C15_stop_no_wedge : forall es s i pc,
+  lrun linit es = Some s -> nth_error (lcallers s) i = Some pc ->
+  exists es' s',
+    Forall (fun e => match e with LTick | LStopCall => False | _ => True end) es' /\
+    lrun s es' = Some s' /\ nth_error (lcallers s') i = Some SReturned.
+Proof. exact stop_no_wedge. Qed.
+Print Assumptions C15_stop_no_wedge.
+
+(* INT64 CORNER, kept visible.  Without a MaxTTL, a TTL above 2^63 ns wraps in
+   [time.Duration(ttl) * time.Second]: the entry is stored already expired although the history
+   says it is live.  The property's "only if" permits the miss; completeness needs the side
+   condition. *)
+Theorem C15_overflow_is_miss :
+  exists maxttl ops k v,
+    forallb op_forward ops = true /\
+    expected_get maxttl (rev ops) k = Some v /\ get (final maxttl 0 ops) k = None /\
+    last_set_fits maxttl (rev ops) k = false.
+Proof. exact overflow_is_miss. Qed.
+Print Assumptions C15_overflow_is_miss.
+
+(* ORACLE SOUNDNESS.  The boolean oracle on one observed Get result [r] after history [h]: a hit
+   must be justified; a miss must be unjustifiable, except when the Set in force has a TTL that
+   does not fit int64 nanoseconds. *)
+Theorem C15_get_oracle_sound : forall maxttl h k r,
+  get_ok maxttl (rev h) k r = true <->
+  match r with
+  | Some v => justified maxttl h k v
+  | None => (forall v, ~ justified maxttl h k v) \/ last_set_fits maxttl (rev h) k = false
+  end.
+Proof. exact get_ok_sound. Qed.
+Print Assumptions C15_get_oracle_sound.
+
+(* the hits-only oracle used for concurrent observations *)
+Theorem C15_get_sound_oracle_sound : forall maxttl h k r,
+  get_sound_ok maxttl (rev h) k r = true <->
+  match r with Some v => justified maxttl h k v | None => True end.
+Proof. exact get_sound_ok_sound. Qed.
+Print Assumptions C15_get_sound_oracle_sound.
+
+(* The whole-observation oracle of Check.v ([all_obs_ok], either mode): if it accepts the observed
+   results [rs] of the history [h], then every Get in [h] that was observed to hit with v is
+   justified by the operations issued before it ... *)
+Theorem C15_oracle_hits_justified : forall strict maxttl h rs a k b v,
+  all_obs_ok strict maxttl [] h rs = true ->
+  h = a ++ OGet k :: b -> nth_error rs (length a) = Some (RGet (Some v)) ->
+  exists h1 ttl h2,
+    a = h1 ++ OSet k v ttl :: h2 /\ 0 < ttl /\ Forall (leaves k) h2 /\
+    elapsed h2 < eff_ttl maxttl ttl * second_ns.
+Proof. exact main_oracle_hits_justified. Qed.
+Print Assumptions C15_oracle_hits_justified.
+
+(* ... and in strict (sequential) mode every observed miss is unjustifiable, int64 corner aside. *)
+Theorem C15_oracle_misses_justified : forall maxttl h rs a k b,
+  all_obs_ok true maxttl [] h rs = true ->
+  h = a ++ OGet k :: b -> nth_error rs (length a) = Some (RGet None) ->
+  (forall v, ~ justified maxttl a k v) \/ last_set_fits maxttl (rev a) k = false.
+Proof. exact main_oracle_misses_justified. Qed.
+Print Assumptions C15_oracle_misses_justified.
+
+(* The oracle also demands that Stop was observed to return and the cleaner to have exited. *)
+Theorem C15_oracle_stop : forall c,
+  oracle c = true ->
+  match c with
+  | CSeq _ _ _ sr ce | CConc _ _ _ sr ce => sr = true /\ ce = true
+  end.
+Proof. exact main_oracle_stop. Qed.
+Print Assumptions C15_oracle_stop.
+
+(* Verdicts: 0 exactly when the oracle holds on the observation and the model agrees with it;
+   2 exactly when the oracle fails. *)
+Theorem C15_check_case_verdict : forall c,
+  (check_case c = 0 <-> oracle c = true /\ model_agrees c = true) /\
+  (check_case c = 2 <-> oracle c = false).
+Proof. exact main_check_case_verdict. Qed.
+Print Assumptions C15_check_case_verdict.
+
+(* The model itself passes the strict oracle on every forward history: a verdict 2 is never an
+   artefact of the oracle disagreeing with the proved model. *)
+Theorem C15_model_meets_spec : forall maxttl t0 ops,
+  forallb op_forward ops = true ->
+  all_obs_ok true maxttl [] ops (results maxttl t0 ops) = true.
+Proof. exact model_meets_spec. Qed.
+Print Assumptions C15_model_meets_spec.
